@@ -677,7 +677,10 @@ func (c *checker) modVectors(vs []vector) {
 		rep.Count(v.key(), hasUnnamedAndNamedOrVoid(v))
 		src := modText(v, textualOrder(v), v.Textual)
 		ref := modText(v, groupOrder(v), v.Printed)
-		c.askPrinted = inSample[vi]
+		// the printed text goes to llvm-as as well for every shape that is already in print-group
+		// order (one representative per printed form) and for a seeded sample of the others; the
+		// identifiers of every printed text are compared with the reference llvm-as has confirmed
+		c.askPrinted = inSample[vi] && (!outOfGroupOrderSrc(v) || c.rng.Intn(100) < 15)
 		if inSample[vi] {
 			if ok, diag := c.llvmAgrees(v); !ok {
 				c.discards++
@@ -909,6 +912,17 @@ func (c *checker) judgeModule(v vector, m *ir.Module, defs []modObj, before []in
 			return
 		}
 	}
+}
+
+// outOfGroupOrderSrc: the definitions (named or not) are not listed group by group.
+func outOfGroupOrderSrc(v vector) bool {
+	o := groupOrder(v)
+	for i := range o {
+		if o[i] != i {
+			return true
+		}
+	}
+	return false
 }
 
 func outOfGroupOrder(v vector) bool {
@@ -1176,11 +1190,12 @@ func Run(tier, replay string) {
 	// histories from a parsed module, then edited (IRState)
 	parse := map[string]string{"MaxSrc": "2", "MaxCalls": "3", "Observers": "{}"}
 	if tier == "thorough" {
-		parse["MaxCalls"] = "4"
+		parse["TermKinds"] = `{"ret", "br", "invoke", "callbr", "catchswitch"}`
 	}
 	c.histories("parse_edit_print", parse)
 	if tier == "thorough" {
-		c.histories("build_edit_print", map[string]string{"MaxSrc": "0", "MaxCalls": "5", "Observers": "{}"})
+		c.histories("build_edit_print", map[string]string{"MaxSrc": "0", "MaxCalls": "4", "Observers": "{}",
+			"TermKinds": `{"ret", "br", "invoke", "callbr", "catchswitch"}`})
 	}
 
 	// (T)
